@@ -385,7 +385,13 @@ def units(tier, seed):
     for keys in tables:
         n = len(F.records(keys))
         for li, lay in enumerate(layouts_for(keys)):
-            out.append(dict(kind="singles", keys=keys, lay=lay, entries=["from_df", "set_values_from_df", "csv"] + (["excel"] if li in (0, 1, 6) or tier == "thorough" else [])))
+            entries = ["from_df", "set_values_from_df", "csv"] + (["excel"] if li in (0, 1, 6) or tier == "thorough" else [])
+            w = lay.get("wide")
+            if w is not None and F.POOL[w][3] is None and not isinstance(F.POOL[w][2][0], str):
+                # a wide table over an UNTYPED dimension with integer items does not survive CSV text (the headers come
+                # back as text and nothing says they are numbers): same domain restriction as in C11
+                entries = [e for e in entries if e != "csv"]
+            out.append(dict(kind="singles", keys=keys, lay=lay, entries=entries))
             if lay["wide"] is None and (tier == "thorough" or (li == 0 and keys in (["T", "S"], ["N"])) or (li == 3 and keys == ["N", "Y"])) and n <= (6 if tier == "quick" else 12):
                 sf = single_faults(keys, n, None)
                 for a in range(len(sf)):
